@@ -103,7 +103,11 @@ class UDSClient:
                 if i < max_retry:
                     logger.info(f"Sleeping for {wait_time}s before attempting to reconnect")
                     await asyncio.sleep(wait_time)
-                    await self.reconnect_unsafe()
+                    try:
+                        await self.reconnect_unsafe()
+                    except ConnectionError as e_reconnect:
+                        # The target is not back yet; the next attempt tries again
+                        logger.warning(f"Reconnecting failed: {e_reconnect!r}")
                 continue
 
             logger.debug(raw_resp.hex(), extra={"tags": ["read", "uds"] + tags})
@@ -152,7 +156,11 @@ class UDSClient:
                     if i < max_retry:
                         logger.info(f"Sleeping for {wait_time}s before attempting to reconnect")
                         await asyncio.sleep(wait_time)
-                        await self.reconnect_unsafe()
+                        try:
+                            await self.reconnect_unsafe()
+                        except ConnectionError as e_reconnect:
+                            # The target is not back yet; the next attempt tries again
+                            logger.warning(f"Reconnecting failed: {e_reconnect!r}")
                     break
                 resp = parse_pdu(raw_resp, request)
                 n_timeout = 0  # Only raise errors for consecutive timeouts
